@@ -32,3 +32,26 @@ pub proof fn lemma_help_word()
     assert(encode_utf8(s) =~= help_word());
 }
 } // verus!
+verus! {
+/// bytes of the message C12 prescribes for unknown / hidden commands
+pub open spec fn unknown_command_msg() -> Seq<u8> {
+    seq![0x65u8, 0x72, 0x72, 0x6F, 0x72, 0x3A, 0x20, 0x75, 0x6E, 0x6B, 0x6E, 0x6F, 0x77, 0x6E, 0x20, 0x63, 0x6F, 0x6D, 0x6D, 0x61, 0x6E, 0x64]
+}
+
+pub proof fn lemma_unknown_command_msg()
+    ensures "error: ".spec_bytes() + "unknown command".spec_bytes() == unknown_command_msg(),
+        no_lf("error: ".spec_bytes()), no_lf("unknown command".spec_bytes()),
+{
+    reveal_strlit("error: ");
+    reveal_strlit("unknown command");
+    let a = "error: "@;
+    let b = "unknown command"@;
+    assert(a =~= seq!['e', 'r', 'r', 'o', 'r', ':', ' ']);
+    assert(b =~= seq!['u', 'n', 'k', 'n', 'o', 'w', 'n', ' ', 'c', 'o', 'm', 'm', 'a', 'n', 'd']);
+    assert(is_ascii_chars(a));
+    assert(is_ascii_chars(b));
+    is_ascii_chars_encode_utf8(a);
+    is_ascii_chars_encode_utf8(b);
+    assert(encode_utf8(a) + encode_utf8(b) =~= unknown_command_msg());
+}
+} // verus!
